@@ -43,6 +43,9 @@ type C18Sc struct {
 	CancelAt   []uint64      `json:"cancel_at,omitempty"`  // ticks at which the current Run is cancelled (synctest bubble)
 	Events     []world.Event `json:"events,omitempty"`     // NMI / mode-1 INT at ticks
 	BadFnFinal bool          `json:"bad_fn_final,omitempty"`
+	// TightStack: SP is placed so that exactly the one slot a CALL needs lies between
+	// the end of the program image (or of a string) and SP: "0" = not, "prog", "str"
+	TightStack string `json:"tight_stack,omitempty"`
 }
 
 type c18 struct{}
@@ -153,6 +156,25 @@ func (c18) Gen(r *world.Rng, tier string, n int) interface{} {
 		for k := r.Range(1, 3); k > 0; k-- {
 			sc.CancelAt = append(sc.CancelAt, uint64(r.Range(1, 3000)))
 		}
+	}
+	if len(sc.Events) == 0 && r.Chance(1, 4) {
+		// the stack has exactly the one slot the CALL needs, right behind code or a string
+		prog, _, _, _, strs := c18Assemble(sc)
+		sc.TightStack = "prog"
+		end := tinycpm.Start + uint16(len(prog))
+		if len(strs) > 0 && r.Bool() {
+			sc.TightStack = "str"
+			st := strs[0] // the one at the highest address: nothing of the program lies behind it
+			for _, x := range strs {
+				if x.Addr > st.Addr {
+					st = x
+				}
+			}
+			b, _ := st.Bytes()
+			end = st.Addr + uint16(len(b))
+		}
+		sc.SP = end + 2
+		sc.Regs.SP = sc.SP
 	}
 	return sc
 }
@@ -425,7 +447,21 @@ func c18Run(sc *C18Sc, env *Env, bubble bool) *Violation {
 		env.FireN("interrupt-inside-machine", uint64(accepted))
 	}
 	env.NonTrivial = len(expect) > 0
-	env.Class("calls=%s/bp=%t/faults=%t/events=%t/cancel=%t", bucket(len(rets)), sc.BPAfter, len(sc.WriteFail) > 0, len(sc.Events) > 0, len(sc.CancelAt) > 0)
+	env.Class("calls=%s/bp=%t/faults=%t/events=%t/cancel=%t/tight=%s", bucket(len(rets)), sc.BPAfter, len(sc.WriteFail) > 0, len(sc.Events) > 0, len(sc.CancelAt) > 0, sc.TightStack)
+	// caller's code and every string intact at the end
+	for i, b := range prog {
+		if mem.Get(tinycpm.Start+uint16(i)) != b {
+			return viol("returns-to-caller", "the caller's code byte at %04x changed (SP=%04x)", tinycpm.Start+uint16(i), sc.SP)
+		}
+	}
+	for _, st := range strs {
+		b, _ := st.Bytes()
+		for i, x := range b {
+			if mem.Get(st.Addr+uint16(i)) != x {
+				return viol("returns-to-caller", "the program's string byte at %04x changed (SP=%04x)", st.Addr+uint16(i), sc.SP)
+			}
+		}
+	}
 	return nil
 }
 
